@@ -106,10 +106,41 @@ class Result:
 _main_cls = [None]
 
 
+def _memoize_entity_map():
+    """Every PyMarkdownLint().main() re-reads and re-filters resources/entities.json (half of the
+    cost of a small scan).  The table is a pure function of that file, so the harness memoizes it on
+    (path, mtime, size) and hands out a fresh copy each time.  Nothing else is altered."""
+    try:
+        from pymarkdown.inline.inline_character_reference_helper import (
+            InlineCharacterReferenceHelper as H,
+        )
+
+        name = "_InlineCharacterReferenceHelper__load_entity_map"
+        orig = getattr(H, name)
+        cache = {}
+
+        def cached(resource_path):
+            f = os.path.join(resource_path, "entities.json")
+            try:
+                st = os.stat(f)
+                key = (os.path.abspath(f), st.st_mtime_ns, st.st_size)
+            except OSError:
+                return orig(resource_path)
+            if key not in cache:
+                cache[key] = orig(resource_path)
+            return dict(cache[key])
+
+        setattr(H, name, staticmethod(cached))
+    except Exception:  # noqa: BLE001 - an optimisation only
+        pass
+
+
 def _lint():
     if _main_cls[0] is None:
         from pymarkdown.main import PyMarkdownLint
 
+        if os.environ.get("VF_NO_MEMO") != "1":
+            _memoize_entity_map()
         _main_cls[0] = PyMarkdownLint
     return _main_cls[0]()
 
